@@ -14,7 +14,19 @@ R1  the per-flight context exists wherever it is used (T-PAIR, must-dataflow on
     AttributeError is caught on the spot.  Otherwise the use itself raises
     AttributeError on the path on which the context constructor rejected the
     mission, and hides the reason.  Also: no exit of `fly` leaves the context
-    acquired.
+    acquired (a failure of the release itself, however spelled, or of a
+    question put to the builder - vars / hasattr / getattr - is not such an
+    exit).  `fly` is read as the interpreter runs it: a `with` over a context
+    manager of the repository - a `@contextmanager` generator (function or
+    builder method) or an object of a class with `__enter__` / `__exit__` -
+    is replaced by the manager's code around the `with` body, the manager's
+    parameters / fields bound to the arguments (`builder.ctx` of the manager
+    is `self.ctx` of `fly`): the manager's try / except / finally around its
+    `yield` protect the flight exactly like a try statement written in `fly`;
+    `__exit__` is not run when `__enter__` failed; an `__exit__` returning True
+    swallows.  Acquire, release, guards, handlers and finally blocks that moved
+    into a manager are judged there (R1 and R4) and reported at their own
+    file and line.
 R2  no builder-persistent state is carried between flights (effects):
     attributes stored on the builder while flying that are not redirected to
     the context must not be read while flying, and persistent containers of
@@ -58,9 +70,25 @@ R3  convergence gate, decided on the CFG of `_iterate_mass` by must-dataflow:
     both sides, or under abs(), is not decided (exit 2: its equality with the
     residual is not established), and no one-sided-test violation is claimed
     while an unclassified ordering comparison of an iteration quantity may
-    supply the missing bound.  The
-    residual returned by `_fly_iteration` equals (trip fuel − fuel burned) /
-    trip fuel as an exact rational function.
+    supply the missing bound.
+    The residual returned by `_fly_iteration` is the leftover trip fuel
+    fraction of *the trajectory it flew*: as an exact rational function it
+    equals (F − (M − last aircraft mass)) / F, where M and F are what the
+    start point of that trajectory is given as aircraft mass and trip fuel
+    (the stores to `aircraft_mass` / `fuel_mass` of the point made first, found
+    wherever they are), read in `_fly_iteration`'s own terms: attributes of the
+    trajectory are what `_fly_iteration` stored in them before the flight,
+    attributes it stores itself before the flight are their values, `p.field`
+    of a NamedTuple parameter is `p[i]`, unpacked parameters are their
+    components.  When the formula is right only after identifying a quantity
+    it uses with one of the start state (`self.total_fuel_mass` for
+    `mass.total_fuel_mass`), the two must both be carried from iteration to
+    iteration: one that nothing reachable from `_iterate_mass` stores, against
+    one that is corrected after every iteration (an attribute stored there, a
+    parameter whose argument is rebound in the loop), is the leftover of
+    another flight from the second iteration on - a violation naming both;
+    both carried (kept in step by the caller) is not decided (exit 2); a
+    formula no such identification makes right is a changed definition.
 R4  nothing on the exceptional path replaces the rejection reason: for every
     exception handler and `finally` block of a builder method, on the CFG:
     no path through a handler continues normally (swallow; exempt, wherever
@@ -89,7 +117,8 @@ from __future__ import annotations
 import ast
 
 from ..astutil import (MUTATING_METHODS, ancestors, assigned_names, call_name, calls_in, conjuncts, guards_of,
-                       is_within, local_defs, norm, single_def_value, stmt_of, stores_to, walk_no_nested)
+                       is_generator_manager, is_within, local_defs, norm, single_def_value,
+                       splice_class_managers, splice_generator_managers, stmt_of, stores_to, walk_no_nested)
 from ..cfg import CFG
 from ..resolve import closure, resolve_call
 from .c13 import _ClassRef, _Interp, _Raised, _Rec, _Tok, _Undecidable
@@ -467,10 +496,65 @@ def _where(n):
     return f' in finally copy {n.fin}' if n.fin else ''
 
 
+def as_run(prog, fi):
+    """The function as the interpreter runs it: a `with` statement over a generator-based context manager of the
+    repository (`@contextmanager def m(..): try: <acquire>; yield finally: <release>`) is the manager's body with the
+    `with` body in the place of the `yield` (astutil.splice_generator_managers: parameters bound to the arguments, so
+    the manager's `builder.ctx` is the method's `self.ctx`); over an object of a repository class with `__enter__` /
+    `__exit__` it is `<__enter__>; try: <body> finally: <__exit__>` (astutil.splice_class_managers; `__exit__` is not
+    run when `__enter__` failed, and one that returns True swallows).  Acquire, release, handlers and finally blocks
+    that moved into such a manager are thereby judged where they act - around the flight.  Returns (function node,
+    managers spliced in)."""
+    def resolve(c):
+        try:
+            callee = resolve_call(prog, fi, c)
+        except Exception:
+            callee = None
+        if callee is None or not is_generator_manager(callee.node):
+            return None
+        recv = c.func.value if (callee.cls is not None and isinstance(c.func, ast.Attribute)) else None
+        return callee.node, callee, recv
+
+    def resolve_class(c):
+        try:
+            cls = prog.resolve_class_expr(fi.module, c.func)
+        except Exception:
+            cls = None
+        if cls is None:
+            return None
+        enter, exit_, init = cls.find_method('__enter__'), cls.find_method('__exit__'), cls.find_method('__init__')
+        if enter is None or exit_ is None or cls.find_method('__post_init__') is not None:
+            return None
+        fields = [f for k in reversed(cls.mro()) for f in k.annotated_fields()]
+        from types import SimpleNamespace
+        tag = SimpleNamespace(file=cls.file, qualname=cls.name, name=cls.name)
+        return (init.node if init is not None else None), fields, enter.node, exit_.node, tag
+
+    node, managers = splice_generator_managers(fi.node, resolve)
+    node, more = splice_class_managers(node, resolve_class)
+    return node, managers + more
+
+
+def _origin(fi, node):
+    """(where, line, note) of a construct for a report: a construct that was taken from a context manager is reported
+    at its own place"""
+    x = node
+    while x is not None and not hasattr(x, '_from_manager'):
+        x = getattr(x, '_parent', None)
+    if x is None:
+        return fi, getattr(node, 'lineno', 0), ''
+    mgr = x._from_manager
+    return ((mgr.file, mgr.qualname), getattr(node, 'lineno', 0),
+            f' (in the context manager `{mgr.name}` that {fi.name} runs its body under)')
+
+
 def rule_pairing(ctx, m):
     fly = m.func('Builder.fly')
     own = _builder_own_attrs(ctx.prog)
-    fw = FlightWrapper(fly.node, own)
+    fly_node, managers = as_run(ctx.prog, fly)
+    ctx.stats['fly.context_managers_spliced'] = [mg.qualname for mg in managers]
+    fw = FlightWrapper(fly_node, own)
+    fw.of = fly.node
     g, acq, rel = fw.g, fw.acq, fw.rel
     ctx.floor('C17-R1', len(acq), 1, 'context acquire sites in fly')
     ctx.floor('C17-R1/release', len(rel), 1, 'context release sites in fly')
@@ -500,13 +584,14 @@ def rule_pairing(ctx, m):
     for r in rel:
         # a release whose AttributeError is caught right there is judged by what that handler does (R4)
         ok = ins.get(r.id, True) or fw._attribute_error_caught(r)
-        ctx.ob('C17-R1', fly, f'release `{norm(r.stmt)}` in finally copy {r.fin or ("body",)}', ok,
+        where, line, note = _origin(fly, r.stmt)
+        ctx.ob('C17-R1', where, f'release `{norm(r.stmt)}` in finally copy {r.fin or ("body",)}{note}', ok,
                'the context is definitely acquired (or the release is guarded) on every path reaching it'
                if ok else
                ('the release is reachable on an exceptional path on which the acquire never completed '
                 '(the context constructor itself raised: unknown airport, airport above cruise level, '
-                'missing weather): `del self.ctx` raises AttributeError and hides the reason'),
-               line=r.line, path=[] if ok else avoid_path(r.id))
+                f'missing weather): `{norm(r.stmt)}` raises AttributeError and hides the reason'),
+               line=line, path=[] if ok else avoid_path(r.id))
 
     # every use of context-backed state needs the context: `self.<attr>` for an attribute the builder does not have
     # itself goes through __getattr__ to self.ctx and raises AttributeError when there is none
@@ -514,20 +599,32 @@ def rule_pairing(ctx, m):
     ctx.floor('C17-R1/reads', len(fw.ctx_reads), 1, 'reads of context-backed attributes in fly')
     for n, a, ok in fw.ctx_reads:
         inexc = bool(_exc_regions(n.stmt)) or n.kind == 'except'
-        ctx.ob('C17-R1', fly, f'read of context-backed self.{a.attr} at `{n.text()[:50]}`{_where(n)}', ok,
+        where, line, note = _origin(fly, a)
+        ctx.ob('C17-R1', where, f'read of context-backed self.{a.attr} at `{n.text()[:50]}`{_where(n)}{note}', ok,
                'the context is definitely acquired (or the read is guarded) on every path reaching it' if ok else
                (f'self.{a.attr} is not an attribute of the builder: it is forwarded to the per-flight context, which '
                 'does not exist on the path on which the context constructor itself rejected the mission (unknown '
                 'airport, airport above cruise level, missing weather)'
                 + (': evaluating this ' + ('handler' if inexc else 'statement') + ' raises AttributeError'
                    + (' and that unrelated error replaces the rejection reason' if inexc else ''))),
-               line=a.lineno, path=[] if ok else avoid_path(n.id))
+               line=line, path=[] if ok else avoid_path(n.id))
 
     # may-acquired at exits
     def real_exc(a, b, lab):
         # attribute loads / `del` themselves are not counted as failure points here
+        # nor is the release itself, however it is spelled (`delattr(self, 'ctx')` is a call): where the context is
+        # attached it succeeds, where it is not the must-analysis above has reported it
         na = g.nodes[a]
-        return lab != 'e' or na.kind in ('dispatch', 'join', 'finally') or bool(na.why_raise & {'call', 'raise'})
+        if lab == 'e' and na.kind == 'stmt' and _is_release(na.stmt):
+            return False
+        if lab != 'e' or na.kind in ('dispatch', 'join', 'finally') or 'raise' in na.why_raise:
+            return True
+        if 'call' not in na.why_raise:
+            return False
+        # asking the builder what it has (`vars(self)`, `hasattr(self, ..)`, `getattr(self, .., None)`) runs nothing
+        # of the flight
+        calls = [c for e in _node_exprs(na) for c in walk_no_nested(e) if isinstance(c, ast.Call)]
+        return na.kind == 'with' or not calls or not all(attr_protocol_call(c) for c in calls)
 
     ins2, _ = g.forward(False, fw.transfer, lambda a, b: a or b, branch_transfer=fw.branch, edge_ok=real_exc)
     for ex, what in ((g.exit, 'normal return'), (g.raise_exit, 'exceptional exit')):
@@ -1381,21 +1478,351 @@ def rule_convergence(ctx, m):
     ctx.ob('C17-R3', it, 'non-convergence is reported by an exception', bool(raises),
            f'{len(raises)} raise statement(s) on the paths on which no residual passed the test' if raises else
            'no raise is reachable: the iteration budget can run out silently', nontrivial=False)
-    # residual definition in _fly_iteration, as an exact rational function of the trajectory's last mass
-    from ..algebra import AlgebraError, normal_form
-    from ..conform import code_normal_form, compare
-    want = ast.parse('(self.total_fuel_mass - (self.starting_mass - TRAJ.aircraft_mass[-1])) / self.total_fuel_mass',
-                     mode='eval').body
+    rule_residual_definition(ctx, prog, it, fi, comp)
+
+
+# ----------------------------------------------------------------------------------------------------
+# R3, the residual: leftover trip fuel of *this iteration's* trajectory, relative to the trip fuel it was loaded with
+# ----------------------------------------------------------------------------------------------------
+
+START_MASS_FIELD, START_FUEL_FIELD = 'aircraft_mass', 'fuel_mass'
+
+
+class _Subst(ast.NodeTransformer):
+    """replace sub-expressions by their normalised text (`self.x`, `traj.y`, a local name) - outermost match first,
+    replacements themselves substituted again up to a small depth"""
+
+    def __init__(self, table: dict, depth: int = 0):
+        self.table, self.depth = table, depth
+
+    def generic_visit(self, n):
+        if isinstance(n, (ast.Attribute, ast.Name, ast.Subscript)) and isinstance(getattr(n, 'ctx', None), ast.Load):
+            v = self.table.get(norm(n))
+            if v is not None and self.depth < 6:
+                import copy
+                return _Subst(self.table, self.depth + 1).visit(copy.deepcopy(v))
+        return super().generic_visit(n)
+
+    def visit(self, n):
+        return self.generic_visit(n)
+
+
+def _subst(e, table):
+    import copy
+    return _Subst(table).visit(copy.deepcopy(e)) if table else e
+
+
+def _start_state(ctx, prog, fi):
+    """Where a trajectory gets its first point: the builder method that stores the aircraft mass and the trip fuel of a
+    point it has just made (`pt = <trajectory>.make_point()`; `pt.aircraft_mass = M`; `pt.fuel_mass = F`).  Returns
+    (function, name of the trajectory there, M, F) with the function's single-definition locals substituted."""
+    from ..conform import _inline_env
+    found = []
+    seen = set()
+    for b in prog.subclasses_of('Builder'):
+        for k in b.mro():
+            for meth in k.methods.values():
+                if id(meth.node) in seen:
+                    continue
+                seen.add(id(meth.node))
+                vals = {START_MASS_FIELD: [], START_FUEL_FIELD: []}
+                for st in walk_no_nested(meth.node):
+                    if not isinstance(st, ast.Assign):
+                        continue
+                    pairs = []
+                    for t in st.targets:
+                        if isinstance(t, (ast.Tuple, ast.List)) and isinstance(st.value, (ast.Tuple, ast.List)) \
+                                and len(t.elts) == len(st.value.elts):
+                            pairs += list(zip(t.elts, st.value.elts))
+                        else:
+                            pairs.append((t, st.value))
+                    for t, v in pairs:
+                        if isinstance(t, ast.Attribute) and t.attr in vals and isinstance(t.value, ast.Name):
+                            d = single_def_value(meth.node, t.value.id)
+                            if isinstance(d, ast.Call) and isinstance(d.func, ast.Attribute) and d.func.attr == 'make_point' \
+                                    and isinstance(d.func.value, ast.Name) and not d.args and not d.keywords:
+                                vals[t.attr].append((d.func.value.id, v))
+                if vals[START_MASS_FIELD] or vals[START_FUEL_FIELD]:
+                    found.append((meth, vals))
+    if len(found) != 1 or any(len(v) != 1 for v in found[0][1].values()):
+        ctx.undecided('C17-R3', fi, 'start point of the trajectory',
+                      f'{len(found)} builder methods store the aircraft mass / trip fuel of a newly made point '
+                      f'({", ".join(f.qualname for f, _ in found)}): which state a trajectory starts from is not decided')
+    sp, vals = found[0]
+    (t1, M), (t2, F) = vals[START_MASS_FIELD][0], vals[START_FUEL_FIELD][0]
+    if t1 != t2:
+        ctx.undecided('C17-R3', sp, 'start point of the trajectory', 'mass and fuel are stored on points of two trajectories')
+    env = {k: v for k, v in _inline_env(sp.node).items()}
+    return sp, t1, _subst(M, env), _subst(F, env)
+
+
+def _before_the_flight(fi, traj_local):
+    """What `_fly_iteration` establishes before it flies the phases: the leading plain assignments of its body.
+    {normalised target text: value} for the attribute stores among them (`traj.starting_mass = ...`,
+    `self.current_mass = ...`) - a later read of such an attribute, by the start point or the residual, is a read of that
+    value, provided nothing else in the function stores it."""
+    table = {}
+    body = list(fi.node.body)
+    for st in body:
+        if isinstance(st, ast.Expr) and isinstance(st.value, ast.Constant):
+            continue
+        if isinstance(st, ast.Assert):
+            continue
+        if not (isinstance(st, ast.Assign) and len(st.targets) == 1):
+            break
+        t = st.targets[0]
+        if isinstance(t, ast.Attribute) and isinstance(t.value, ast.Name) and t.value.id in ('self', traj_local):
+            table[norm(t)] = st.value
+    counts = {}
+    for t, st, how in stores_to(fi.node):
+        counts[norm(t)] = counts.get(norm(t), 0) + 1
+    return {k: v for k, v in table.items() if counts.get(k, 0) == 1}
+
+
+def _rename_atoms(r, mapping):
+    from ..algebra import Rat, _p_atom
+    def poly(p_):
+        out = Rat({})
+        for mono, c in p_.items():
+            term = Rat({(): c})
+            for a, e in mono:
+                base = Rat(_p_atom(mapping.get(a, a)))
+                for _ in range(e):
+                    term = term * base
+            out = out + term
+        return out
+    return poly(r.num) / poly(r.den)
+
+
+def rule_residual_definition(ctx, prog, it, fi, comp):
+    """The residual `_fly_iteration` returns is (F - (M - last aircraft mass)) / F as an exact rational function, M and
+    F being the aircraft mass and the trip fuel the trajectory *of this iteration* starts with - what the start point
+    of the trajectory is given, read in `_fly_iteration`'s own terms.  A residual computed from another quantity is
+    the leftover of another flight: when that quantity is not carried from iteration to iteration while the start
+    state is (or the reverse), the two differ from the second iteration on and the convergence test passes or fails
+    for a trajectory other than the one returned."""
+    from ..algebra import AlgebraError, normal_form, poly_equal
+    from ..conform import _inline_env, compare
+    traj_local = comp['traj_local']
+    sp, sp_traj, M, F = _start_state(ctx, prog, fi)
+    pre = _before_the_flight(fi, traj_local)
+    # the start state in _fly_iteration's terms: attributes of the trajectory are what _fly_iteration stored in them
+    # before the flight; attributes of the builder (the per-flight context) are the same object in both methods
+    if sp.node is not fi.node:
+        if sp_traj not in _params(sp.node):
+            ctx.undecided('C17-R3', sp, 'start point of the trajectory', f'`{sp_traj}` is not the trajectory handed in')
+        to_fi = {}
+        for e in (M, F):
+            for x in ast.walk(e):
+                if isinstance(x, ast.Attribute) and isinstance(x.value, ast.Name) and x.value.id == sp_traj:
+                    key = f'{traj_local}.{x.attr}'
+                    if key not in pre:
+                        ctx.undecided('C17-R3', sp, norm(e), f'the start point reads `{norm(x)}`, which '
+                                      f'{fi.name} does not set before the flight')
+                    to_fi[norm(x)] = pre[key]
+        M, F = _subst(M, to_fi), _subst(F, to_fi)
+        # what is left must mean the same in both methods: the builder (`self`) and module-level names
+        own_names = (_params(sp.node) | assigned_names_in(sp.node)) - {'self'}
+        for e in (M, F):
+            local_only = {x.id for x in ast.walk(e) if isinstance(x, ast.Name)} & own_names
+            # names brought in by the substitution are _fly_iteration's own
+            local_only -= {x.id for v in to_fi.values() for x in ast.walk(v) if isinstance(x, ast.Name)}
+            if local_only:
+                ctx.undecided('C17-R3', sp, norm(e), f'the start state depends on {sorted(local_only)} of {sp.name}')
+    env = dict(_inline_env(fi.node))
+    env.update(_unpacked_parameters(fi.node))
+    # a parameter that is a tuple-like record (NamedTuple): `p.field` is `p[i]`, however it is read
+    canon, pretty = _record_parameters(prog, fi)
+    M, F, res = (canon(_subst(e, pre)) for e in (M, F, comp['res_value']))
+    env = {k: canon(_subst(v, pre)) for k, v in env.items()}
+    env[traj_local] = ast.Name('TRAJ', ast.Load())
+    last = ast.parse(f'TRAJ.{START_MASS_FIELD}[-1]', mode='eval').body
+    want_e = ast.BinOp(ast.BinOp(F, ast.Sub(), ast.BinOp(M, ast.Sub(), last)), ast.Div(), F)
     try:
-        got = code_normal_form(fi.node, comp['res_value'], {}, extra_env={comp['traj_local']: ast.Name('TRAJ', ast.Load())})
-        verdict, why = compare(got, normal_form(want, {}, {}))
+        got = normal_form(res, env, {})
+        want = normal_form(ast.fix_missing_locations(want_e), env, {})
+        verdict, why = compare(got, want)
     except AlgebraError as e:
         verdict, why = 'undecided', str(e)
     if verdict == 'undecided':
         ctx.undecided('C17-R3', fi, norm(comp['res_value'])[:60], f'residual definition: {why}')
-    ok = verdict == 'equal'
-    ctx.ob('C17-R3', fi, 'residual = (trip fuel − fuel burned) / trip fuel', ok,
-           'leftover trip fuel relative to trip fuel' if ok else f'residual definition changed: {why}', nontrivial=False)
+    Mt, Ft = pretty(norm(M)), pretty(norm(F))
+    what = 'residual = (trip fuel − fuel burned) / trip fuel'
+    if verdict == 'equal':
+        ctx.ob('C17-R3', fi, what, True, f'leftover trip fuel relative to the trip fuel loaded, for the start state of this '
+               f'iteration\'s trajectory (aircraft mass `{Mt}`, trip fuel `{Ft}` at {sp.name})', nontrivial=False)
+        return
+    # different: a changed formula, or the right formula over a quantity that is not this iteration's
+    exc, exr = sorted(got.atoms() - want.atoms()), sorted(want.atoms() - got.atoms())
+    if not exc and not exr:
+        ctx.ob('C17-R3', fi, what, False, f'residual definition changed: {why}', nontrivial=False)
+        return
+    carried = _carried_between_iterations(prog, it, fi)
+    import itertools
+    fix = None
+    src, dst, other = (exc, sorted(want.atoms()), want) if exc else (exr, sorted(got.atoms()), got)
+    mine = got if exc else want
+    for combo in itertools.product(dst, repeat=len(src)) if len(src) <= 3 else ():
+        try:
+            if poly_equal(_rename_atoms(mine, dict(zip(src, combo))), other):
+                fix = dict(zip(src, combo))
+                break
+        except AlgebraError:
+            continue
+    if fix is None:
+        # no identification of the foreign quantities with those of the start state makes the formula right
+        stale = [a for a in src if carried(a) is False]
+        if stale and all(carried(b) for b in dst if carried(b) is not None):
+            fix = {a: None for a in stale}
+        else:
+            ctx.ob('C17-R3', fi, what, False, f'residual definition changed: {why}', nontrivial=False)
+            return
+    pairs = [(a, b) for a, b in fix.items() if b is None or (carried(a) is not None and carried(b) is not None
+                                                           and carried(a) != carried(b))]
+    if not pairs:
+        mine_txt, other_txt = (", ".join(f"`{pretty(a)}`" for a in fix), ", ".join(f"`{pretty(b)}`" for b in fix.values()))
+        code_txt, start_txt = (mine_txt, other_txt) if exc else (other_txt, mine_txt)
+        ctx.undecided('C17-R3', fi, norm(comp['res_value'])[:60],
+                      f'the residual is computed from {code_txt} where the start state of the trajectory is {start_txt}; '
+                      'whether the two are kept equal from iteration to iteration is not decided')
+    role = {Mt: 'the aircraft mass', Ft: 'the trip fuel'}
+    parts = []
+    for a, b in pairs:
+        fixed, moving = (a, b) if carried(a) is False else (b, a)
+        fixed, moving = pretty(fixed), pretty(moving)
+        code_atom, start_atom = (pretty(a), pretty(b)) if exc else (pretty(b), pretty(a))
+        about = f'`{start_atom}`' + (f', {role[start_atom]}' if start_atom in role else '') if start_atom else \
+            f'aircraft mass `{Mt}` and trip fuel `{Ft}`'
+        parts.append(f'the residual is computed with `{code_atom}` where the trajectory of this iteration starts with {about} '
+                     f'(stored by {sp.name} as the first point\'s {START_MASS_FIELD} / {START_FUEL_FIELD}); '
+                     f'`{fixed}` is not updated between the iterations of {it.name}'
+                     + (f' while `{moving}` is corrected after every iteration' if moving else ''))
+    ctx.ob('C17-R3', fi, what, False,
+           '; '.join(parts) + ': from the second iteration on the residual that is tested is not the leftover trip fuel '
+           'fraction of the trajectory that was flown, so a trajectory outside the requested tolerance can be returned as '
+           'converged (or a converged one rejected)', nontrivial=False,
+           line=getattr(comp['res_value'], 'lineno', fi.node.lineno))
+
+
+def _unpacked_parameters(fn):
+    """`a, b = p` with p a parameter that is never rebound and a, b bound nowhere else: a is p[0], b is p[1]"""
+    out = {}
+    params = _params(fn)
+    stored = [x.id for x in walk_no_nested(fn) if isinstance(x, ast.Name) and isinstance(x.ctx, (ast.Store, ast.Del))]
+    for st in walk_no_nested(fn):
+        if isinstance(st, ast.Assign) and len(st.targets) == 1 and isinstance(st.targets[0], (ast.Tuple, ast.List)) \
+                and isinstance(st.value, ast.Name) and st.value.id in params and st.value.id not in stored \
+                and all(isinstance(e, ast.Name) and stored.count(e.id) == 1 for e in st.targets[0].elts):
+            for i, e in enumerate(st.targets[0].elts):
+                out[e.id] = ast.Subscript(ast.Name(st.value.id, ast.Load()), ast.Constant(i), ast.Load())
+    return out
+
+
+def _record_parameters(prog, fi):
+    """(canon, pretty) for the parameters of `fi` annotated with a tuple-like record class of the program (NamedTuple):
+    canon(expr) reads every `p.field` as `p[i]`; pretty(text) writes `p[i]` as `p.field` again for a report"""
+    fields = {}
+    a = fi.node.args
+    for prm in a.posonlyargs + a.args + a.kwonlyargs:
+        if prm.annotation is None:
+            continue
+        try:
+            cls = prog.resolve_class_expr(fi.module, prm.annotation)
+        except Exception:
+            cls = None
+        if cls is None or not any('NamedTuple' in b for c in cls.mro() for b in c.base_exprs):
+            continue
+        fields[prm.arg] = [f for c in reversed(cls.mro()) for f in c.annotated_fields()]
+
+    class T(ast.NodeTransformer):
+        def visit_Attribute(self, n):
+            if isinstance(n.value, ast.Name) and n.value.id in fields and n.attr in fields[n.value.id] \
+                    and isinstance(n.ctx, ast.Load):
+                return ast.copy_location(ast.Subscript(ast.Name(n.value.id, ast.Load()),
+                                                       ast.Constant(fields[n.value.id].index(n.attr)), ast.Load()), n)
+            return self.generic_visit(n)
+
+    def canon(e):
+        import copy
+        return ast.fix_missing_locations(T().visit(copy.deepcopy(e))) if fields else e
+
+    def pretty(txt):
+        if txt is None:
+            return txt
+        for prm, fs in fields.items():
+            for i, f in enumerate(fs):
+                txt = txt.replace(f'{prm}[{i}]', f'{prm}.{f}')
+        return txt
+    return canon, pretty
+
+
+def assigned_names_in(fn):
+    return {x.id for x in walk_no_nested(fn) if isinstance(x, ast.Name) and isinstance(x.ctx, ast.Store)}
+
+
+def _carried_between_iterations(prog, it, fi):
+    """carried(atom) -> True when the quantity is given a new value between two iterations of `_iterate_mass` (an
+    attribute of the builder / context that `_iterate_mass` or anything it calls stores; a parameter of
+    `_fly_iteration` whose argument at a call in `_iterate_mass` is built from a local that is rebound there; data of
+    the iteration's trajectory), False when nothing does, None for anything else."""
+    fparams = [p for p in _params_in_order(fi.node) if p != 'self']
+    stored = set()
+    for f in closure(prog, [it]):
+        if f.cls is None:
+            continue
+        for t, st, how in stores_to(f.node):
+            b = t
+            while isinstance(b, ast.Subscript):
+                b = b.value
+            if isinstance(b, ast.Attribute) and norm(b.value) == 'self':
+                stored.add(b.attr)
+    rebound = set()
+    for x in walk_no_nested(it.node):
+        if isinstance(x, ast.Name) and isinstance(x.ctx, ast.Store):
+            in_loop = any(isinstance(a, (ast.For, ast.While)) for a in ancestors(x))
+            if in_loop or len(local_defs(it.node, x.id)) > 1:
+                rebound.add(x.id)
+    moving_params = set()
+    for c in calls_in(it.node):
+        if not (isinstance(c.func, ast.Attribute) and c.func.attr == fi.name):
+            continue
+        bound = dict(zip(fparams, c.args))
+        bound.update({k.arg: k.value for k in c.keywords if k.arg})
+        for p, v in bound.items():
+            for x in ast.walk(v):
+                if isinstance(x, ast.Name) and x.id in rebound:
+                    moving_params.add(p)
+                if isinstance(x, ast.Attribute) and norm(x.value) == 'self' and x.attr in stored:
+                    moving_params.add(p)
+
+    def carried(atom):
+        if atom is None:
+            return None
+        try:
+            e = ast.parse(atom, mode='eval').body
+        except SyntaxError:
+            return None
+        chain = []
+        root = e
+        while isinstance(root, (ast.Attribute, ast.Subscript)):
+            chain.append(root.attr if isinstance(root, ast.Attribute) else None)
+            root = root.value
+        if not isinstance(root, ast.Name):
+            return None
+        if root.id == 'TRAJ':
+            return True
+        if root.id == 'self':
+            first = chain[-1] if chain else None
+            return (first in stored) if first else None
+        if root.id in fparams:
+            return root.id in moving_params
+        return None
+    return carried
+
+
+def _params_in_order(fn):
+    a = fn.args
+    return [x.arg for x in a.posonlyargs + a.args + a.kwonlyargs]
 
 
 def _iteration_components(ctx, prog, fi):
@@ -1457,11 +1884,14 @@ def _handler_obligations(ctx, where, fw, rule='C17-R4', lookup_call=None):
     for h, t, nested in fw.handlers():
         n += 1
         what = f'except {", ".join(_type_names(h)) if h.type else ""}'.strip()
+        where0 = where
+        where, hline, note = _origin(where0, h) if hasattr(where0, 'qualname') else (where0, h.lineno, '')
+        what += note
         if fw.body_can_only_fail_locally(t, h, lookup_call):
             ctx.ob(rule, where, f'{what} re-raises unchanged', True,
                    'the protected block only looks things up (no call beyond the attribute protocol, no raise of anything '
                    'else) and only look-up errors are caught: nothing of the flight can be intercepted here',
-                   line=h.lineno, nontrivial=False)
+                   line=hline, nontrivial=False)
             continue
         bad = []
         if fw.swallows(h):
@@ -1484,10 +1914,13 @@ def _handler_obligations(ctx, where, fw, rule='C17-R4', lookup_call=None):
                            'the handler: the handler itself raises UnboundLocalError before it re-raises')
         ctx.ob(rule, where, f'{what} re-raises unchanged', not bad,
                'every path through the handler ends in re-raising the caught exception, and the handler reads only '
-               'state that exists on every path into it' if not bad else '; '.join(dict.fromkeys(bad)), line=h.lineno)
+               'state that exists on every path into it' if not bad else '; '.join(dict.fromkeys(bad)), line=hline)
+        where = where0
     for t in walk_no_nested(fw.fn):
         if isinstance(t, ast.Try) and t.finalbody:
             n += 1
+            where1, fline, note = _origin(where, t.finalbody[0]) if hasattr(where, 'qualname') else \
+                (where, t.finalbody[0].lineno, '')
             bad = [f'`{norm(x)}` at line {x.lineno} inside `finally` discards the exception in flight'
                    for x in fw.finally_escapes(t)]
             for node, txt, kind in fw.bad_reads_in(('finally', t)):
@@ -1495,9 +1928,9 @@ def _handler_obligations(ctx, where, fw, rule='C17-R4', lookup_call=None):
                     continue
                 bad.append(f'`{node.text()[:60]}` reads {txt}, which does not exist on every exceptional path into the '
                            'finally block: the clean-up raises and replaces the rejection reason')
-            ctx.ob(rule, where, f'finally block of the try at line {t.lineno} lets the exception through', not bad,
+            ctx.ob(rule, where1, f'finally block of the try at line {t.lineno} lets the exception through{note}', not bad,
                    'no return/break/continue, and it reads only state that exists on every path into it'
-                   if not bad else '; '.join(dict.fromkeys(bad)), line=t.finalbody[0].lineno)
+                   if not bad else '; '.join(dict.fromkeys(bad)), line=fline)
     return n
 
 
@@ -1523,11 +1956,15 @@ def rule_handlers(ctx, m, fly_fw=None):
     n = 0
     for b in builders:
         for meth in b.methods.values():
-            if not any(isinstance(x, ast.Try) for x in walk_no_nested(meth.node)):
+            if fly_fw is not None and getattr(fly_fw, 'of', fly_fw.fn) is meth.node:
+                node = fly_fw.fn
+            else:
+                node, _ = as_run(prog, meth)   # handlers of a context manager the method runs under act here
+            if not any(isinstance(x, ast.Try) for x in walk_no_nested(node)):
                 continue
-            manages = any(isinstance(x, ast.stmt) and (_is_acquire(x) or _is_release(x)) for x in walk_no_nested(meth.node))
-            fw = fly_fw if (fly_fw is not None and fly_fw.fn is meth.node) else \
-                FlightWrapper(meth.node, own, assume_acquired=not manages)
+            manages = any(isinstance(x, ast.stmt) and (_is_acquire(x) or _is_release(x)) for x in walk_no_nested(node))
+            fw = fly_fw if (fly_fw is not None and fly_fw.fn is node) else \
+                FlightWrapper(node, own, assume_acquired=not manages)
             n += _handler_obligations(ctx, meth, fw, lookup_call=lookup_call_in(prog, meth, 0, (meth,)))
     ctx.ob('C17-R4', (m.relpath, 'Builder'), f'{n} exception handlers / finally blocks on builder methods', True,
            'each examined on the CFG' if n else 'none: rejections propagate unchanged', nontrivial=False)
